@@ -260,7 +260,7 @@ static int huge_last_index(const char *ptr, V *v)
 	if (!last)
 		return 0;
 	size_t idx;
-	return canonical_index(last + 1, strlen(last + 1), &idx) && idx > 8;
+	return canonical_index(last + 1, strlen(last + 1), &idx) && idx > 16;
 }
 static int val_destroyed;
 static void val_deleted(struct json_object *o, void *ud)
@@ -555,6 +555,16 @@ static void enumerate(void)
 		va_reset();
 		make_leaves();
 		one_tree(vfam_get(&f, 1, i), 5, mc_tier ? 5 : 4, 1);
+	}
+	/* wide arrays: two-digit index tokens (the multi-character path of the index parser) */
+	static const char *wide[] = {"[0,1,2,3,4,5,6,7,8,9,10,11]", "{\"a\":[0,null,2,3,4,5,6,7,8,9,[10],{\"k\":11}]}", "[[0,1,2,3,4,5,6,7,8,9,10],null]",
+	                             "{\"10\":[0,1,2,3,4,5,6,7,8,9,10,11,12],\"1\":{\"10\":1}}"};
+	for (unsigned i = 0; i < sizeof wide / sizeof wide[0]; i++)
+	{
+		va_reset();
+		struct rr_result rr;
+		rr_parse((const unsigned char *)wide[i], strlen(wide[i]), NULL, &rr);
+		one_tree(rr.value, 5, mc_tier ? 5 : 4, 1);
 	}
 	/* depth 2: containers whose children come from a pool of depth<=1 values */
 	static const char *pool_docs[] = {"1", "null", "\"s\"", "[]", "{}", "[null]", "[1,null]", "[null,\"s\"]", "{\"\":1}", "{\"a\":null}", "{\"/\":1,\"~\":null}",
